@@ -196,6 +196,8 @@ RetWait(th, res, vt) ==
    /\ Done(th)
 RetNames(th, names) == /\ call[th].op = "wfor" /\ call[th].st = "done" /\ names = call[th].sres /\ Done(th)
 RetDeadline(th, d) == /\ call[th].op = "deadline" /\ call[th].st = "done" /\ d = call[th].ires /\ Done(th)
+(* set() / clear() of the MultiEvent itself are refused (ValueError) and change nothing *)
+RetRefused(th) == /\ call[th].op \in {"mforce", "mclear"} /\ call[th].st = "called" /\ Done(th)
 RetFlag(th, b) == /\ call[th].op \in {"isset", "mset"} /\ call[th].st = "done" /\ b = call[th].bres /\ Done(th)
 
 (* a thread that never returns: legitimate only for a wait without any limit while something is outstanding *)
